@@ -164,6 +164,29 @@ pub enum GeneralTerm {
 
 impl_node!(GeneralTerm, Format, GeneralTermParser);
 
+/// A symbol is renamed (by appending `__s`) if it is named like a propositional predicate, or like
+/// such a predicate followed by any number of `__s` suffixes. Renaming the second kind too keeps the
+/// renaming injective and invertible: a symbol `p__s` written in the input cannot be confused
+/// with the renamed symbol `p`.
+pub(crate) fn is_conflicting_symbol(
+    symbol: &str,
+    possible_conflicts: &IndexSet<Predicate>,
+) -> bool {
+    let mut name = symbol;
+    loop {
+        if possible_conflicts.contains(&Predicate {
+            symbol: name.to_string(),
+            arity: 0,
+        }) {
+            return true;
+        }
+        match name.strip_suffix("__s") {
+            Some(base) => name = base,
+            None => return false,
+        }
+    }
+}
+
 impl GeneralTerm {
     pub fn variables(&self) -> IndexSet<Variable> {
         match &self {
@@ -224,12 +247,7 @@ impl GeneralTerm {
     fn rename_conflicting_symbols(self, possible_conflicts: &IndexSet<Predicate>) -> Self {
         match self {
             GeneralTerm::SymbolicTerm(SymbolicTerm::Symbol(s)) => {
-                let predicate = Predicate {
-                    symbol: s.clone(),
-                    arity: 0,
-                };
-                // TODO: increment new name while conflicts exist
-                if possible_conflicts.contains(&predicate) {
+                if is_conflicting_symbol(&s, possible_conflicts) {
                     GeneralTerm::SymbolicTerm(SymbolicTerm::Symbol(format!("{s}__s")))
                 } else {
                     GeneralTerm::SymbolicTerm(SymbolicTerm::Symbol(s))
